@@ -34,6 +34,11 @@ ASSUMPTIONS_COMMON = [
     "mathematical integers, so every machine overflow is an obligation",
     "usize is 64 bit",
     "termination only where Verus demands a decreases clause",
+    "call markers: where an effect lands behind a lock or in a component the unit only sees as a stub, the stub's contract "
+    "establishes an uninterpreted predicate of its exact arguments and the caller's postcondition requires it; the link "
+    "from the marker to what the callee guarantees is by function name (the callee is under contract in its own unit)",
+    "sequential model of Mutex / Arc<Mutex<..>> (guards are values with a ghost view); serde (de)serialisation and the "
+    "storage back ends are assumed to be round trips / not to fail",
 ]
 
 
